@@ -38,6 +38,8 @@ FUNCS = [
     ("distributed_shampoo/utils/shampoo_preconditioner_list.py", "BaseShampooPreconditionerList._get_inverse_roots_from_override_with_high_order_default"),
     ("distributed_shampoo/utils/shampoo_distributor.py", "Distributor.update_params"),
     ("matrix_functions.py", "check_diagonal"),
+    ("matrix_functions.py", "_matrix_inverse_root_eigen"),
+    ("matrix_functions.py", "_matrix_inverse_root_diagonal"),
     ("distributed_shampoo/utils/shampoo_preconditioner_list.py", "AdagradPreconditionerList.update_preconditioners"),
     ("distributed_shampoo/utils/shampoo_preconditioner_list.py", "AdagradPreconditionerList.precondition"),
     ("distributed_shampoo/utils/shampoo_preconditioner_list.py", "SGDPreconditionerList.precondition"),
@@ -65,7 +67,7 @@ def cases(tier):
                     cs.append(f"group_step/{graft}/{alias}/{dec}/{fg}")
     from checks import plist
     cs += plist.shampoo_cases(tier)
-    cs += ["wiring/instantiate", "wiring/defaults", "wiring/steps-per-group", "contract/check_diagonal"]
+    cs += ["wiring/instantiate", "wiring/defaults", "wiring/steps-per-group", "contract/check_diagonal", "contract/inverse_root/eigen", "contract/inverse_root/diagonal"]
     for a in "01":
         for b in "01":
             for c in "01":
@@ -211,6 +213,9 @@ def replay_file(doc):
         except BaseException as ex:  # noqa
             bad = f"real optimizer raised {type(ex).__name__}: {ex}"
         return bool(bad), f"config {cfg} shapes {shapes} presence {hist}: {bad}"
+    if rp.get("kind") in ("eigen", "diag_any_sign", "scalar1x1"):
+        from checks import c11
+        return c11.replay_file(doc)
     if rp.get("kind") == "two_group_steps":
         from checks import wiring
         bad = wiring.native_two_group_steps()
@@ -247,6 +252,11 @@ def replay_file(doc):
 def run_case(case, tier, seed):
     if case.startswith("group_step/"):
         return _group_step_case(case, tier)
+    if case.startswith("contract/inverse_root/"):
+        # contract [M] of the root computation the list classes call (spectral formula of the eigendecomposition path incl. the
+        # enhance_stability variant, diagonal fast path): re-discharged here on the real matrix_functions code
+        from checks import mf
+        return mf.run_diag_eigen("diag_eigen/" + case.rsplit("/", 1)[1])
     if case == "contract/check_diagonal":
         # contract [D] the list classes rely on (the flag selects the diagonal fast path of the root computation): re-discharged here on
         # the real matrix_functions.check_diagonal so that a change to it is reported by this property's own check
